@@ -155,6 +155,7 @@ func Run(prefix []int, horizon int, body func()) *Result {
 	s.aborted = false
 	s.quiet = false
 	s.nextID = 0
+	resetChans()
 	s.active = true
 	t := s.newThread("main")
 	s.cur = t
